@@ -1229,8 +1229,10 @@ func (c *Client) RemoteUpdate(
 		return nil
 	}
 
-	// execute or fallback
-	c.clockUpdate(update, false)
+	// execute or fallback (off the RPC read loop, which delivers the response)
+	if !c.clockUpdate(update, false) {
+		go c.Sync()
+	}
 
 	return nil
 }
@@ -1246,9 +1248,9 @@ func (c *Client) RemoteUpdateMutations(
 		return nil
 	}
 
-	// execute or fallback
+	// execute or fallback (off the RPC read loop, which delivers the response)
 	if !c.clockUpdateMutations(updates) {
-		c.Sync()
+		go c.Sync()
 	}
 
 	return nil
